@@ -275,8 +275,12 @@ def rule_make_link(ck, lk, mk, sub):
     if href_var is None:
         return
     group_nodes = {}
-    for n in cfg.stmt_nodes(lambda n: n.kind == "stmt" and isinstance(n.ast, ast.Assign)):
+    for n in cfg.stmt_nodes(lambda n: n.kind == "stmt" and isinstance(n.ast, (ast.Assign, ast.AnnAssign)) and n.ast.value is not None):
         v = n.ast.value
+        if isinstance(n.ast, ast.AnnAssign):
+            if q.is_call(v, mp + ".group") and len(v.args) == 1 and isinstance(v.args[0], ast.Constant) and isinstance(n.ast.target, ast.Name):
+                group_nodes[n.id] = [(n.ast.target.id, v.args[0].value)]
+            continue
         if q.is_call(v, mp + ".group") and len(v.args) == 1 and isinstance(v.args[0], ast.Constant) and len(n.ast.targets) == 1 and isinstance(n.ast.targets[0], ast.Name):
             group_nodes[n.id] = [(n.ast.targets[0].id, v.args[0].value)]
         elif q.is_call(v, mp + ".group") and len(v.args) > 1 and all(isinstance(a_, ast.Constant) for a_ in v.args) and len(n.ast.targets) == 1 and isinstance(n.ast.targets[0], ast.Tuple) and len(n.ast.targets[0].elts) == len(v.args) and all(isinstance(t_, ast.Name) for t_ in n.ast.targets[0].elts):
@@ -710,10 +714,10 @@ def rule_label_prefix(ck, lk, mk, sub):
     rets = cfg.stmt_nodes(lambda n: n.kind == "stmt" and isinstance(n.ast, ast.Return))
     anchors = {r.id: r for r in rets if _anchor(r.ast.value)}
     group_nodes = {}
-    for n in cfg.stmt_nodes(lambda n: n.kind == "stmt" and isinstance(n.ast, ast.Assign)):
+    for n in cfg.stmt_nodes(lambda n: n.kind == "stmt" and isinstance(n.ast, (ast.Assign, ast.AnnAssign)) and n.ast.value is not None):
         v = n.ast.value
         if q.is_call(v, mp + ".group") and all(isinstance(a_, ast.Constant) for a_ in v.args) and v.args:
-            tg = n.ast.targets[0]
+            tg = n.ast.targets[0] if isinstance(n.ast, ast.Assign) else n.ast.target
             if len(v.args) == 1 and isinstance(tg, ast.Name):
                 group_nodes[n.id] = [(tg.id, v.args[0].value)]
             elif isinstance(tg, ast.Tuple) and len(tg.elts) == len(v.args) and all(isinstance(t_, ast.Name) for t_ in tg.elts):
@@ -722,6 +726,12 @@ def rule_label_prefix(ck, lk, mk, sub):
         if n.kind != "stmt":
             return None
         st = n.ast
+        if isinstance(st, ast.AnnAssign) and st.value is not None and isinstance(st.target, ast.Name):
+            try:
+                env[st.target.id] = rich_fold(st.value, env)
+            except q.NotFoldable:
+                env[st.target.id] = UNK
+            return True
         if isinstance(st, ast.Assign) and len(st.targets) == 1 and isinstance(st.targets[0], ast.Name):
             try:
                 env[st.targets[0].id] = rich_fold(st.value, env)
@@ -791,6 +801,12 @@ def rule_label_prefix(ck, lk, mk, sub):
             if n.id in group_nodes:
                 for name, g in group_nodes[n.id]:
                     env[name] = groups.get(g, UNK)
+                return True
+            if isinstance(st, ast.AnnAssign) and st.value is not None and isinstance(st.target, ast.Name):
+                try:
+                    env[st.target.id] = fold(st.value, env)
+                except q.NotFoldable:
+                    env[st.target.id] = UNK
                 return True
             if isinstance(st, ast.Assign) and len(st.targets) == 1 and isinstance(st.targets[0], ast.Name):
                 try:
@@ -975,7 +991,9 @@ def _is_found_test(c, amp):
 
 
 def run(ck):
-    from ..x_valuewalk import guard_obligations
+    from ..x_valuewalk import guard_obligations, plain_assignments
+
+    ck.repo = plain_assignments(ck.repo, ['tornado/escape.py'])
 
     guard_obligations(ck, [])
     ck.rule("C22.escape-first", "linkify applies the URL regex to xhtml_escape(text) and returns the substitution result")
